@@ -319,7 +319,7 @@ class TransferFrameDataField:
         if tfdf.should_have_fhp_or_lvp_field(
             truncated=truncated, frame_type=frame_type
         ):
-            if len(raw_tfdf) < 3:
+            if len(raw_tfdf) < 3 or exact_len < 3:
                 raise UslpInvalidRawPacketOrFrameLen
             tfdf.fhp_or_lvop = (raw_tfdf[1] << 8) | raw_tfdf[2]
             tfdz_start = 3
